@@ -230,6 +230,9 @@ def in_domain(case) -> bool:
                 return False
     if len(ids) != len(set(ids)):
         return False
+    # the code treats a total capacity <= 1e-9 as "all batteries have capacity 0" (ValueError)
+    if sum(fr(b["cap"]) for g in case["groups"] for b in g["bats"]) <= ZERO_TOL:
+        return False
     lo, hi = advertised(case)
     return p >= hi if p > 0 else p <= lo
 
@@ -440,6 +443,8 @@ def boundary_cases():
     out.append({"groups": [{"bats": [B(1, 10, 50, 0, 100, -200, 0, 0, 200)], "invs": [I(2, -100, 0, 0, 100)]}], "power": 250, "exp": 1})
     # tiny request (treated as zero by the code)
     out.append({**out[-1], "power": [1, 10 ** 10]})
+    # total capacity below the code's zero tolerance: ValueError
+    out.append({"groups": [{"bats": [B(1, [1, 10 ** 10], 50, 0, 100, -200, 0, 0, 200)], "invs": [I(2, -100, 0, 0, 100)]}], "power": 50, "exp": 1})
     return out
 
 
